@@ -56,6 +56,7 @@ func checkC06(c *Ctx) {
 	checkC06Instance(c, c.Rule("C06.instance", "getInstance keeps ConnPool/Context/SkipHooks and a fresh Clauses map; Session mutates the statement only after cloning it", 8))
 	checkC06FreshHandle(c)
 	checkC06ArgHandles(c)
+	checkC06StmtSlices(c)
 	checkC06MergeAlias(c, c.Rule("C06.merge-alias", "MergeClause never appends onto / stores into a slice not created in that call", 16))
 	checkC06BuildPure(c, c.Rule("C06.build-pure", "Build/NegationBuild/buildExprs never store into a slice reachable from receiver or parameters", 30))
 	checkC06ExecuteReset(c, c.Rule("C06.execute-reset", "Execute resets per-execution state; temporary clause writes in Update/Count are paired with deferred restores; AfterQuery trims FROM joins unconditionally", 6))
